@@ -696,3 +696,47 @@ func specAttrCtx(c ast.Context) int {
 //@   loop 2
 //@     invariant 3 <= i && i <= 5
 //@     decreases 5 - i
+
+// ---------------------------------------------------------------------------
+// C09, static side: checkShow's accepted-type table. In every context that is
+// rendered through runtime.toString (text, tag, attributes, strings, code
+// blocks, HTML, CSS, Markdown) a type is accepted only as the empty interface,
+// by one of the interfaces the show functions test for before calling toString,
+// as a byte slice where the show function handles byte slices, or by a kind in
+// the set the run-time side is proved to convert (runtime.specShowableKind,
+// lemmaShowableKinds below ties the two sets together). JavaScript and JSON
+// contexts (checkShowJS/checkShowJSON, recursive over composite types) are not
+// under this contract.
+// ---------------------------------------------------------------------------
+
+func specStaticKindOK(k reflect.Kind) bool {
+	return k == reflect.String || reflect.Bool <= k && k <= reflect.Complex128
+}
+
+func specTextLike(ctx ast.Context) bool {
+	switch ctx {
+	case ast.ContextText, ast.ContextTag, ast.ContextQuotedAttr, ast.ContextUnquotedAttr,
+		ast.ContextCSSString, ast.ContextJSString, ast.ContextJSONString,
+		ast.ContextTabCodeBlock, ast.ContextSpacesCodeBlock:
+		return true
+	}
+	return false
+}
+
+//@ func checkShow
+//@   props C09
+//@   opt puremethods Kind Implements
+//@   panics allowed
+//@   ensures result == nil && specTextLike(ctx) ==> t == emptyInterfaceType || specStaticKindOK(t.Kind()) || ctx == ast.ContextCSSString && t == byteSliceType || t.Implements(stringerType) || t.Implements(envStringerType) || t.Implements(errorType)
+//@   ensures result == nil && ctx == ast.ContextHTML ==> t == emptyInterfaceType || specStaticKindOK(t.Kind()) || t == byteSliceType || t.Implements(stringerType) || t.Implements(envStringerType) || t.Implements(htmlStringerType) || t.Implements(htmlEnvStringerType) || t.Implements(errorType)
+//@   ensures result == nil && ctx == ast.ContextCSS ==> t == emptyInterfaceType || specStaticKindOK(t.Kind()) || t == byteSliceType || t.Implements(stringerType) || t.Implements(envStringerType) || t.Implements(cssStringerType) || t.Implements(cssEnvStringerType) || t.Implements(errorType)
+//@   ensures result == nil && ctx == ast.ContextMarkdown ==> t == emptyInterfaceType || specStaticKindOK(t.Kind()) || t.Implements(stringerType) || t.Implements(envStringerType) || t.Implements(mdStringerType) || t.Implements(mdEnvStringerType) || t.Implements(htmlStringerType) || t.Implements(htmlEnvStringerType) || t.Implements(errorType)
+
+// Every kind the checker accepts by kind is one the renderer converts.
+func lemmaShowableKinds(k reflect.Kind) bool {
+	return !specStaticKindOK(k) || runtime.VerifShowableKind(k)
+}
+
+//@ func lemmaShowableKinds
+//@   props C09
+//@   ensures result
